@@ -515,7 +515,7 @@ class C18:
     def __init__(self, tier):
         self.tier = tier
         if tier == 'thorough':
-            self.examples = 100000
+            self.examples = 40000
             self.workers = 16
 
     def make_executor(self):
@@ -848,7 +848,7 @@ class C22:
     def __init__(self, tier):
         self.tier = tier
         if tier == 'thorough':
-            self.examples = 50000
+            self.examples = 30000
             self.workers = 16
 
     def make_executor(self):
@@ -1516,7 +1516,7 @@ class C25:
                    '(harness/tsan.supp) - the queue itself is C30\'s subject',
                    'a data race report from ThreadSanitizer that involves fix8 frames outside ff:: fails the case (the executor exits with the report)',
                    'messages are NewOrderSingle with unique ClOrdIDs; memory and file persister']
-    rule = ('Hypothesis draws the process model, the persister, 2-8 threads and for each thread a script of sends, batches of 2-5 and yields. All threads start together. Oracle: the numbers '
+    rule = ('Hypothesis draws the process model, the persister, 2-8 threads and for each thread a script of sends (session-owned, caller-owned, by reference), batches of 1-5 (owned or kept) and yields. All threads start together. Oracle: the numbers '
             'on the wire are exactly next..next+n-1 in strictly increasing wire order, every ClOrdID appears exactly once, the number of accepted sends equals n, Persister::get(number) '
             'returns the wire bytes of that number, and neither AddressSanitizer/UBSan nor ThreadSanitizer reports anything. Each workload runs in the ASan build; every second one also in the '
             'TSan build. Non-trivial: >= 3 threads with >= 1 batch each.')
@@ -1539,7 +1539,9 @@ class C25:
         return Pair()
 
     def strategy(self):
-        step = st.one_of(st.just('s'), st.integers(2, 5).map(lambda n: 'b%d' % n), st.integers(2, 5).map(lambda n: 'b%d' % n), st.just('y'))
+        # s send(msg) | k send(msg, false): the caller keeps the message | r send(Message&) | b / B send_batch destroying / keeping the messages (1-5 members) | y yield
+        step = st.one_of(st.just('s'), st.just('k'), st.just('r'), st.integers(2, 5).map(lambda n: 'b%d' % n), st.integers(1, 5).map(lambda n: 'B%d' % n),
+                         st.integers(1, 5).map(lambda n: 'b%d' % n), st.just('y'))
         script = st.lists(step, min_size=1, max_size=12)
         return st.fixed_dictionaries({'pm': st.sampled_from(['thread', 'pipe', 'thread', 'pipe', 'coro']), 'persist': st.sampled_from(['mem', 'file']),
                                       'scripts': st.one_of(st.lists(script, min_size=2, max_size=8), st.lists(script, min_size=3, max_size=8)), 'tsan': st.booleans(), 'start': st.sampled_from([0, 0, 7, 1000])})
@@ -1577,14 +1579,19 @@ class C25:
         for sc in case['scripts']:
             toks = []
             for stp in sc:
+                if case['pm'] == 'pipe':
+                    # the pipelined model ignores the destroy flag (the writer thread owns and deletes every message) and refuses send(Message&): only the owning forms apply
+                    stp = {'k': 's', 'r': 's'}.get(stp, stp)
+                    if stp[0] == 'B':
+                        stp = 'b' + stp[1:]
                 if stp == 'y':
                     toks.append('y')
-                elif stp == 's':
-                    nid += 1; ids.append('ID%d' % nid); toks.append('s%d' % nid)
+                elif stp in ('s', 'k', 'r'):
+                    nid += 1; ids.append('ID%d' % nid); toks.append('%s%d' % (stp, nid))
                 else:
                     k = int(stp[1:]); mine = list(range(nid + 1, nid + 1 + k)); nid += k
                     ids += ['ID%d' % i for i in mine]
-                    toks.append('b' + '+'.join(map(str, mine)))
+                    toks.append(stp[0] + '+'.join(map(str, mine)))
             scripts.append(toks)
         if not ids:
             return {}
@@ -1620,7 +1627,7 @@ class C25:
             if not r['ok'] or sessref.unhx(r['v']) != m.raw:
                 raise Violation('C25: stored copy under %d is not the transmitted message\n wire  : %r\n stored: %r\n %s' % (m.seq, m.raw[:200], sessref.unhx(r['v'])[:200] if r['ok'] else None, desc))
         fin = S.delete()
-        nb = sum(1 for sc in scripts if any(t.startswith('b') for t in sc))
+        nb = sum(1 for sc in scripts if any(t[0] in 'bB' for t in sc))
         return {'nontrivial': len(scripts) >= 3 and nb == len(scripts), 'classes': ['pm:' + case['pm'], 'persist:' + case['persist'], 'build:' + flavour, 'threads:%d' % len(scripts)],
                 'key': [case, flavour], 'sample': {'model': case['pm'], 'persist': case['persist'], 'scripts': scripts, 'wire_ids_in_order': wire_ids[:40]}}
 
